@@ -605,7 +605,7 @@ type Evidence struct {
 
 func writeEvidence(prop string, ev *Evidence) {
 	dir := "/verif/evidence"
-	if repoDir != "/repo" {
+	if repoDir != "/repo" || *flagOnly != "" {
 		// runs against a scratch copy (mutants, seeded changes) must not overwrite the evidence of the real tree
 		dir = "/verif/work/evidence-scratch"
 	}
